@@ -1054,14 +1054,12 @@ class C12(Property):
 
     @staticmethod
     def _rx_tok(op, obs=()):
-        if op[0] == 'r':
-            return '@'.join(['r%d' % op[1]] + list(obs))
-        if op[0] in ('p', 's'):
-            return '%s%d' % (op[0], op[1])
+        if op[0] in ('r', 'p', 's'):
+            return '@'.join(['%s%d' % (op[0], op[1])] + list(obs))
         if op[0] == 'u':
-            return 'u%d:%s:%s' % (op[1], op[2], op[3])
+            return '@'.join(['u%d:%s:%s' % (op[1], op[2], op[3])] + list(obs))
         if op[0] == 'c':
-            return 'c%s' % op[1]
+            return '@'.join(['c%s' % op[1]] + list(obs))
         if op[0] == 'm':
             return 'm%d' % op[1]
         if op[0] == 'rf':
@@ -1117,14 +1115,14 @@ class C12(Property):
         r = rec['r']
         if rec.get('rbuf') == 'nonbytes':
             return 'X~-~0~0'
-        if r == 'ok':
+        if r == 'ok' and rec['op_kind'] in ('r', 'rf'):
             if rec['v'].startswith('nonbytes'):
                 return 'X~-~0~0'
             res = 'v' + rec['v']
-        elif r == 'timeout':
-            res = 'T'
         elif r == 'oserror':
             res = 'E'
+        elif r == 'timeout' or rec['op_kind'] not in ('r', 'rf'):
+            res = 'T'       # (for a framing call only the split is read)
         else:
             return 'X~-~0~0'
         return '%s~%s~%d~%d' % (res, rec['rbuf'], len(unhx(rec['und'])), rec['fl'])
@@ -1162,7 +1160,7 @@ class C12(Property):
         if k == 'rx':
             if case['rs'] < 1:
                 return None
-            robs = (self._hints_for(case).get('robs', {}) if any(op[0] == 'r' for op in case['ops']) else {})
+            robs = self._hints_for(case).get('robs', {})
             return ' '.join(['rx', str(case['rs']), str(case['ms']), str(case['retry']),
                              self._script_tok(case['script'])] +
                             [self._rx_tok(op, robs.get(i, ())) for i, op in enumerate(case['ops'])])
@@ -1326,7 +1324,8 @@ class C12(Property):
                 rec['rbuf'] = hx(bytes(rb)) if isinstance(rb, (bytes, bytearray)) else 'nonbytes'
                 rec['und'] = hx(fs.undelivered())
                 rec['fl'] = fs.faults_left()
-                if op[0] == 'r':
+                rec['op_kind'] = op[0]
+                if op[0] != 'm':
                     robs.setdefault(i, []).append(self._obs_tok(rec))
                 out.append(rec)
                 if rec['r'] != 'timeout' and rec['r'] != 'oserror':
@@ -1420,7 +1419,8 @@ class C12(Property):
             rec['wire'] = hx(fs.wire)
             rec['left'] = sum(1 for e in fs.sscript if is_to(e))
             out.append(rec)
-            if side == 'R' and op[0] in ('r', 'rf'):
+            rec['op_kind'] = op[0]
+            if side == 'R' and op[0] != 'm':
                 robs[i] = [self._obs_tok(rec)]
             if side == 'S':
                 o = self._offers(fs, n0, pend0)
@@ -1569,7 +1569,14 @@ class C12(Property):
                     last[r['op']] = r
                 finals = [one(last[i]) for i in sorted(last) if case['ops'][i][0] != 'm']
                 nops = sum(1 for op in case['ops'] if op[0] != 'm')
-                body += ' #%s/%s|%d' % (','.join(finals), obs['recs'][-1]['rbuf'] if obs['recs'] else '-', nops)
+                # what is still owed at the end: rbuf ++ undelivered (how it is split is free)
+                if not obs['recs']:
+                    owed = hx(b''.join(unhx(e) for e in case['script'] if not is_to(e)))
+                elif obs['recs'][-1]['rbuf'] == 'nonbytes':
+                    owed = 'nonbytes'
+                else:
+                    owed = hx(unhx(obs['recs'][-1]['rbuf']) + unhx(obs['recs'][-1]['und']))
+                body += ' #%s/%s|%d' % (','.join(finals), owed, nops)
             return body
         if k == 'tx':
             return '%s #%d' % (';'.join('%s/%s/%s' % (r['r'], r['sbuf'], r['wire']) for r in obs['recs']) or '-',
